@@ -133,8 +133,8 @@ Definition do_c2 (s : st) : st :=
 Definition apply_eff (e : eff) (s : st) : st :=
   match e with
   | EGate | ESend => s
-  | EJoin g => if status s <=? 4 then set_groups (g :: groups s) s else s
-  | EMon g => if status s <=? 4 then set_mons (g :: mons s) s else s
+  | EJoin g => if (status s <=? 4) && negb (mem g (groups s)) then set_groups (g :: groups s) s else s
+  | EMon g => if (status s <=? 4) && negb (mem g (mons s)) then set_mons (g :: mons s) s else s
   | ELinkTo q => if status s <? 4 then set_my_sup (Some q) s else s
   | EAdopt o =>
       if status s <? 4 then
@@ -310,3 +310,11 @@ Definition observe (s : st) : obs :=
         (events s) (ran s) (count_open s)
         (exists_cell s && (status s <? 4) && ports_open s)
         (match name_other s with Some _ => true | None => false end) O.
+
+(* the model's answer for a scenario: the observation after each chunk of labels (one chunk per
+   settle of the harness) *)
+Fixpoint run_chunks (chunks : list (list label)) (s : st) : list obs :=
+  match chunks with
+  | [] => []
+  | c :: t => let s' := exec c s in observe s' :: run_chunks t s'
+  end.
